@@ -105,10 +105,10 @@ let handle (p : string) : string =
         (if fin.g_runs <> [] then "+runs" else "")
         (if nops <= 5 then "short" else if nops <= 12 then "mid" else "long") in
     ignore sawresp;
-    Printf.sprintf "t=%s;i=%s;conc=%d;ps=%d;dup=%d;ooo=%d;bad=%d;lost=%d;rj=0;dv=0%s%s;class=%s"
+    Printf.sprintf "t=%s;i=%s;conc=%d;ps=%d;dup=%d;ooo=%d;bad=%d;lost=%d;rj=%d;dv=%d%s%s;class=%s"
       (String.concat "/" (List.rev !tr)) (String.concat "/" (List.rev !it))
       (int_of_n fin.g_conc) (int_of_n fin.g_psends) (int_of_nat (dups done_)) ooo
-      (int_of_nat (bad_data done_)) (int_of_nat (lost fin))
+      (int_of_nat (bad_data done_)) (int_of_nat (lost fin)) (int_of_n fin.g_rj) (int_of_nat (dv_of fin))
       (if !oof then ";oof=1" else "") (if fin.g_fatal then ";fatal=1" else "") cls
   | _ -> "bad-payload"
 let () = vh_run handle
